@@ -216,7 +216,7 @@ def run(chk, prog):
         reads_height = any(pe.get('n') == 'evaluation_stack_height_when_pushed'
                            for _, _, s in cf.stmts() if s['k'] == 'assign'
                            for pl in ([s['rv'].get('pl')] if 'pl' in s['rv'] else []) +
-                           ([s['rv']['op']['pl']] if s['rv'].get('op', {}).get('k') in ('copy', 'move') else [])
+                           ([s['rv']['op']['pl']] if isinstance(s['rv'].get('op'), dict) and s['rv']['op'].get('k') in ('copy', 'move') else [])
                            for pe in (pl or {}).get('p', []) if pe['k'] == 'field')
         pop_typed = False
         for bb in pops:
@@ -227,6 +227,22 @@ def run(chk, prog):
         chk.decide(RC, chk.key(RC, 'height-read'), reads_height and bool(popev),
                    'pops the evaluation stack down to the recorded height',
                    'complete_function_evaluation_from_game no longer uses evaluation_stack_height_when_pushed', cf.loc(0))
+        # the recorded height belongs to the host frame: it is read while that frame is still the current one
+        hreads = [bb for bb, si, s_ in cf.stmts() if s_['k'] == 'assign'
+                  for pl in ([s_['rv'].get('pl')] if 'pl' in s_['rv'] else []) +
+                  ([s_['rv']['op']['pl']] if isinstance(s_['rv'].get('op'), dict) and s_['rv']['op'].get('k') in ('copy', 'move') else [])
+                  if any(pe['k'] == 'field' and pe.get('n') == 'evaluation_stack_height_when_pushed'
+                         for pe in (pl or {}).get('p', []))]
+        after_pop = gc.reachable([x for p_ in pops for x in gc.succ[p_]])
+        chk.decide(RC, chk.key(RC, 'height-read-from-the-host-frame'), bool(hreads) and not any(h in after_pop for h in hreads),
+                   'the height is read before the host frame is popped',
+                   'complete_function_evaluation_from_game reads evaluation_stack_height_when_pushed after it has popped '
+                   'the host frame: the height of the frame underneath (0) is used and the main story\'s pending operands '
+                   'are thrown away with the function\'s', cf.loc(hreads[0]) if hreads else cf.loc(0))
+        # ... and the evaluation stack is cut back before the frame goes
+        chk.decide(RC, chk.key(RC, 'stack-cut-back-before-the-pop'), bool(popev) and not any(b in after_pop for b in popev),
+                   'the evaluation stack is cut back while the host frame is still current',
+                   'the evaluation stack is cut back after the host frame was popped', cf.loc(popev[0]) if popev else cf.loc(0))
         chk.decide(RC, chk.key(RC, 'typed-pop'), pop_typed,
                    'pops a frame of type FunctionEvaluationFromGame',
                    'the frame popped is not required to be the host-evaluation frame', cf.loc(pops[0]) if pops else None)
